@@ -49,16 +49,119 @@ class Engine:
         self.path_log = []
         self.errors = []             # python exceptions escaping a path (code under test or oracle)
         self.catch_errors = True
+        self.use_cache = False
+        self.cache_hits = 0
 
     # --- low level
     def _check(self, *extra):
         t = time.time()
         self.checks += 1
+        if self.use_cache and extra:
+            r = self._check_sliced(extra)
+            self.solver_s += time.time() - t
+            return r
         r = self.solver.check(*extra)
         self.solver_s += time.time() - t
         if r == z3.unknown:
             raise SXUnsupported('solver unknown: %s' % self.solver.reason_unknown())
         return r == z3.sat
+
+    def _slice(self, extra, asserts=None):
+        """assertions of the path condition connected (through shared variables) to `extra`"""
+        asserts = list(self.solver.assertions()) if asserts is None else asserts
+        want = set()
+        for e in extra:
+            want |= _vars_of(e)
+        avars = [_vars_of(a) for a in asserts]
+        chosen = [False] * len(asserts)
+        changed = bool(want)
+        while changed:
+            changed = False
+            for i, vs in enumerate(avars):
+                if not chosen[i] and vs & want:
+                    chosen[i] = True
+                    if not vs <= want:
+                        want |= vs
+                        changed = True
+        return [a for a, c in zip(asserts, chosen) if c] + list(extra), want
+
+    def _solve_canonical(self, sl):
+        """sat/unsat of a set of assertions, cached modulo variable renaming; returns (sat?, {orig var id: value})"""
+        order = []
+        seen = set()
+        for a in sl:
+            for v in sorted(_vars_of(a)):
+                if v not in seen:
+                    seen.add(v)
+                    order.append(v)
+        subs = [(_VARS[v], z3.Const('cv%d' % i, _VARS[v].sort())) for i, v in enumerate(order)]
+        key = '|'.join(sorted(z3.substitute(a, *subs).sexpr() for a in sl)) if subs else '|'.join(sorted(a.sexpr() for a in sl))
+        hit = _QCACHE.get(key)
+        if hit is None:
+            s2 = z3.Solver()
+            s2.set('timeout', 60000)
+            s2.add(*[z3.substitute(a, *subs) for a in sl] if subs else sl)
+            r = s2.check()
+            if r == z3.unknown:
+                raise SXUnsupported('solver unknown: %s' % s2.reason_unknown())
+            vals = None
+            if r == z3.sat:
+                m = s2.model()
+                vals = [m.eval(c, model_completion=True) for _, c in subs]
+            hit = _QCACHE[key] = (r == z3.sat, vals)
+        else:
+            self.cache_hits += 1
+        sat, vals = hit
+        return sat, ({v: val for v, val in zip(order, vals)} if sat else None)
+
+    def _check_sliced(self, extra):
+        """sat(path and extra) decided on the slice of the path condition that shares variables with `extra`
+        (the other variable components are satisfiable because the path is feasible); results cached modulo
+        renaming of variables, so identical obligations recurring on other structures cost nothing."""
+        sl, want = self._slice(extra)
+        sat, vals = self._solve_canonical(sl)
+        self._last_sliced = vals
+        return sat
+
+    def path_model(self):
+        """{variable name: z3 value} for the whole path condition, solved one variable component at a time"""
+        asserts = list(self.solver.assertions())
+        left = list(asserts)
+        out = {}
+        while left:
+            a0 = left[0]
+            if not _vars_of(a0):
+                left.pop(0)
+                continue
+            sl, want = self._slice([], None) if False else self._slice_of(a0, left)
+            sat, vals = self._solve_canonical(sl)
+            if not sat:
+                return None
+            for v, val in vals.items():
+                out[str(_VARS[v])] = val
+            ids = {x.get_id() for x in sl}
+            left = [x for x in left if x.get_id() not in ids]
+        return out
+
+    def _slice_of(self, a0, pool):
+        want = set(_vars_of(a0))
+        chosen = []
+        changed = True
+        rest = list(pool)
+        while changed:
+            changed = False
+            nxt = []
+            for a in rest:
+                vs = _vars_of(a)
+                if vs & want:
+                    chosen.append(a)
+                    if not vs <= want:
+                        want |= vs
+                    changed = True
+                else:
+                    nxt.append(a)
+            rest = nxt
+        return chosen, want
 
     def assume(self, cond):
         c = _b(cond)
@@ -156,8 +259,15 @@ class Engine:
         if z3.is_true(c):
             return True
         if self._check(z3.Not(c)):
-            m = self.solver.model()
-            w = witness(m) if witness else {str(d): str(m[d]) for d in m.decls()}
+            if self.use_cache:
+                vals = getattr(self, '_last_sliced', None) or {}
+                w = {k: str(v) for k, v in (self.path_model() or {}).items()}     # the rest of the path condition
+                w.update({str(_VARS[v]): str(val) for v, val in vals.items()})
+                if witness:
+                    raise SXUnsupported('custom witness with sliced queries')
+            else:
+                m = self.solver.model()
+                w = witness(m) if witness else {str(d): str(m[d]) for d in m.decls()}
             self.violations.append((msg, w))
             return False
         return True
@@ -168,8 +278,43 @@ class Engine:
     def stats(self):
         return dict(paths=self.paths, reached=self.reached, z3_checks=self.checks, assertions=self.assertions,
                     solver_s=round(self.solver_s, 3), unsupported=len(self.unsupported), bound_hits=self.bound_hits,
+                    cache_hits=self.cache_hits,
                     errors=len(self.errors),
                     violations=len(self.violations))
+
+
+_QCACHE = {}
+_VARS = {}
+_VMEMO = {}
+
+
+def _vars_of(e):
+    """ids of the uninterpreted constants occurring in a z3 term (memoised per term id)"""
+    k = e.get_id()
+    r = _VMEMO.get(k)
+    if r is not None:
+        return r[1]
+    out = set()
+    stack = [e]
+    seen = set()
+    while stack:
+        x = stack.pop()
+        i = x.get_id()
+        if i in seen:
+            continue
+        seen.add(i)
+        if z3.is_const(x) and x.decl().kind() == z3.Z3_OP_UNINTERPRETED:
+            out.add(i)
+            _VARS[i] = x
+            continue
+        if z3.is_app(x):
+            sub = _VMEMO.get(i)
+            if sub is not None and x is not e:
+                out |= sub[1]
+                continue
+            stack.extend(x.children())
+    _VMEMO[k] = (e, frozenset(out))      # the term is kept alive: z3 recycles AST ids of freed terms
+    return _VMEMO[k][1]
 
 
 E = None
@@ -177,6 +322,8 @@ E = None
 
 def new_engine(**kw):
     global E
+    _VMEMO.clear()
+    _VARS.clear()
     E = Engine(**kw)
     return E
 
@@ -568,13 +715,17 @@ class SZ3Str:
         b = SZ3Str.lift(o)
         if b is None: return False
         if s.e.eq(b): return True
+        if isinstance(o, str):
+            f = LEAF_FILTERS.get(s.e.get_id())
+            if f is not None and not f(o):
+                return False          # o is outside the language the variable is constrained to: refuted without a query
         return SBool(s.e == b)
 
     def __ne__(s, o):
-        b = SZ3Str.lift(o)
-        if b is None: return True
-        if s.e.eq(b): return False
-        return SBool(s.e != b)
+        r = s.__eq__(o)
+        if isinstance(r, bool):
+            return not r
+        return ~r
 
     def __lt__(s, o): return SBool(s.e < SZ3Str.lift(o))
     def __gt__(s, o): return SBool(SZ3Str.lift(o) < s.e)
@@ -589,6 +740,7 @@ class SZ3Str:
     def __iter__(s): raise SXUnsupported('iteration over SZ3Str')
 
 
+LEAF_FILTERS = {}      # z3 var id -> concrete membership predicate of the language the var is constrained to
 SYM_TYPES = (SInt, SBool, SStr, SZ3Str, SEnum)
 _extra_sym = []
 
@@ -768,6 +920,9 @@ class RT:
                         return SymSet(*a)
                     if f is dict and not k:
                         return SymDict(*a)
+                if (f is set or f is frozenset) and a and isinstance(a[0], (list, tuple, SymSet)) and \
+                        (isinstance(a[0], SymSet) or any(isinstance(x, SYM_TYPES) for x in a[0])):
+                    return SymSet(a[0])
                 return f(*a, **k)
             if isinstance(slf, str):
                 if f.__name__ == 'join':
@@ -814,12 +969,24 @@ class RT:
         return x in c
 
     @staticmethod
-    def mkdict(keys, values):
-        return SymDict(zip(keys, values))
+    def mkdict(keys, values, force=False):
+        if force or any(isinstance(k, SYM_TYPES) for k in keys):
+            return SymDict(zip(keys, values))
+        return dict(zip(keys, values))
 
     @staticmethod
-    def mkset(items):
-        return SymSet(items)
+    def mkset(items, force=False):
+        items = list(items)
+        if force or any(isinstance(k, SYM_TYPES) for k in items):
+            return SymSet(items)
+        return set(items)
+
+    @staticmethod
+    def mkdict_pairs(pairs, force=False):
+        pairs = list(pairs)
+        if force or any(isinstance(k, SYM_TYPES) for k, _ in pairs):
+            return SymDict(pairs)
+        return dict(pairs)
 
 
 def _dict_method(d, name, k, *rest):
@@ -894,6 +1061,12 @@ def sym_contains(c, x):
         subs = sorted({c[i:j] for i in range(len(c) + 1) for j in range(i, len(c) + 1)})
         return SBool(z3.Or([x.e == z3.StringVal(y) for y in subs]))
     if isinstance(c, (tuple, list, set, frozenset, dict)):
+        if isinstance(x, SZ3Str) and all(isinstance(y, str) or y is None for y in c):
+            f = LEAF_FILTERS.get(x.e.get_id())
+            cand = [y for y in c if isinstance(y, str) and (f is None or f(y))]
+            if not cand:
+                return False
+            return bool(SBool(z3.Or([x.e == z3.StringVal(y) for y in cand])))
         for y in c:
             if _eq(x, y):
                 return True
@@ -1022,31 +1195,30 @@ class Tr(ast.NodeTransformer):
             return ast.copy_location(c, n)
         return n
 
+    def _force(self):
+        return [ast.keyword(arg='force', value=ast.Constant(value=bool(self.symbolic_containers)))]
+
     def visit_Dict(self, n):
         self.generic_visit(n)
-        if not self.symbolic_containers or any(k is None for k in n.keys):
+        if any(k is None for k in n.keys) or not n.keys:
+            if not n.keys and self.symbolic_containers:
+                return ast.copy_location(ast.Call(func=_rt('mkdict'), args=[ast.List(elts=[], ctx=ast.Load()), ast.List(elts=[], ctx=ast.Load())], keywords=self._force()), n)
             return n
         return ast.copy_location(ast.Call(func=_rt('mkdict'), args=[ast.List(elts=n.keys, ctx=ast.Load()),
-                                                                    ast.List(elts=n.values, ctx=ast.Load())], keywords=[]), n)
+                                                                    ast.List(elts=n.values, ctx=ast.Load())], keywords=self._force()), n)
 
     def visit_Set(self, n):
         self.generic_visit(n)
-        if not self.symbolic_containers:
-            return n
-        return ast.copy_location(ast.Call(func=_rt('mkset'), args=[ast.List(elts=n.elts, ctx=ast.Load())], keywords=[]), n)
+        return ast.copy_location(ast.Call(func=_rt('mkset'), args=[ast.List(elts=n.elts, ctx=ast.Load())], keywords=self._force()), n)
 
     def visit_SetComp(self, n):
         self.generic_visit(n)
-        if not self.symbolic_containers:
-            return n
-        return ast.copy_location(ast.Call(func=_rt('mkset'), args=[ast.ListComp(elt=n.elt, generators=n.generators)], keywords=[]), n)
+        return ast.copy_location(ast.Call(func=_rt('mkset'), args=[ast.ListComp(elt=n.elt, generators=n.generators)], keywords=self._force()), n)
 
     def visit_DictComp(self, n):
         self.generic_visit(n)
-        if not self.symbolic_containers:
-            return n
         lc = ast.ListComp(elt=ast.Tuple(elts=[n.key, n.value], ctx=ast.Load()), generators=n.generators)
-        return ast.copy_location(ast.Call(func=ast.Name(id='__sx_symdict__', ctx=ast.Load()), args=[lc], keywords=[]), n)
+        return ast.copy_location(ast.Call(func=_rt('mkdict_pairs'), args=[lc], keywords=self._force()), n)
 
 
 class Loader(importlib.machinery.SourceFileLoader):
